@@ -480,6 +480,21 @@ async fn run_scenario(sc: Value, sock: PathBuf, meaning: Map<String, Value>) -> 
     // ... and every live subscription is flushed by a marker publish on a key it matches,
     // issued by the harness' own admin session and awaited on the subscription's stream
     let (admin, exact) = run_markers(&done, &sock, &sh, secret.is_some()).await;
+    // answers to acquire-lock requests come from tasks of their own (grant or cancellation), not in
+    // line with the session's other answers: give the outstanding ones a moment
+    for _ in 0..60 {
+        let mut waiting = false;
+        for (_, st, wr, _) in done.iter() {
+            let g = st.lock().await;
+            if wr.is_some() && !g.closed_by_server && g.log.iter().any(|r| s(r, "op") == "acquire" && r["rep"]["t"] == "none") {
+                waiting = true;
+            }
+        }
+        if !waiting {
+            break;
+        }
+        tokio::time::sleep(Duration::from_millis(5)).await;
+    }
     let mut sess_out = Map::new();
     let mut streams = Map::new();
     let mut lsstreams = Map::new();
